@@ -31,7 +31,7 @@ TAG_WORDS = ['active', 'inactive', 'pending', 'basic', 'pro', 'business', 'point
              'circle', 'add', 'sub', 'file', 'folder', 'deleted', 'anything', 'vegan', 'path',
              'not_found', 'no_permission', 'too_large', 'namespace_gone', 'reset', 'ok', 'full',
              'left', 'right', 'up', 'down', 'red', 'green', 'blue', 'small', 'big']
-CALLERS = ['internal', 'alpha', 'beta', 'team_admin']
+CALLERS = ['internal', 'alpha', 'beta', 'team_admin', 'teamAdmin', 'Internal', 'ADMIN', 'x__y']   # any identifier-shaped permission name (the docs' examples are lower case; the name is an opaque string to the runtime)
 DOC_WORDS = ['the', 'value', 'of', 'this', 'field', 'is', 'used', 'when', 'a', 'namespace',
              'user', 'requests', 'data', "it's", 'never', '"quoted"', 'back\\slash', 'café',
              '数', 'x<y', '100%', '{braces}', '{0}', '%s', '#hash', "'single'", 'e.g.', ':colon:',
@@ -615,7 +615,7 @@ class Builder:
                     deep = [c for c in cands if c[1].get('parent')]
                     # parents that already have a child: sibling unions share what they inherit
                     shared = [c for c in cands if self.idx.children(c[0], c[1]['name'])]
-                    if shared and (self.cfg.union_chain_bias or self.cfg.union_struct_bias) and g.p(40):
+                    if shared and (self.cfg.union_chain_bias or self.cfg.union_struct_bias) and g.p(55):
                         n, p = g.choice(shared)
                     else:
                         n, p = g.choice(deep if deep and self.cfg.union_chain_bias and g.p(60) else cands)
@@ -770,7 +770,7 @@ class Builder:
                 for _ in range(g.int(0 if d['parent'] else 1, cfg.max_fields)):
                     name = self.namer.fresh(TAG_WORDS, taken, extra_ok=lambda s: s not in RESERVED_SNAKE)
                     reuse = [x for x in sib_tags if x not in taken and x != 'other']
-                    if reuse and g.p(30):
+                    if reuse and g.p(55):
                         name = g.choice(reuse)
                         taken.add(name)
                     red_aliases = [('alias', n_, a_['name']) for n_, a_ in self.visible(ns, ('alias',))
@@ -850,7 +850,10 @@ class Builder:
             if name == 'String':
                 return lit + self.g.choice(['1', '\n', ' ', 'Z', 'x' * 30])
             if name in M.FLOATS:
-                return self.g.choice([int(lit) if abs(lit) < 1e15 else lit, lit - 1, lit + 1, -lit, lit * 2])
+                near = self.g.choice([int(lit) if abs(lit) < 1e15 else lit, lit - 1, lit + 1, -lit, lit * 2])
+                if isinstance(near, float) and (near != near or near in (float('inf'), float('-inf'))):
+                    return lit          # the spec grammar has no literal for inf / nan
+                return near
             if name in M.INTS:
                 return lit + self.g.choice([1, -1])
         return lit
